@@ -45,6 +45,7 @@ def gen_bayes(seed, tier):
         "Sigma": r.spd(N, Dy, cmax, diag=cond_cls in ("diag", "identitydiag")),
         "y": r.normal((N, Dy), 1.5),
         "ctor": r.choice(["sigma", "lambda", "sigma_lambda", "all"]),
+        "prior_ctor": r.choice(["sigma", "sigma_lambda", "all"]),
     }
     if cond_cls.startswith("identity"):
         m["M"] = np.tile(np.eye(Dw)[None], (N, 1, 1))
@@ -120,6 +121,7 @@ def gen_kalman(seed, tier):
         # optional time-varying noise: the same conditional objects are re-used with update_Sigma
         "Rs": r.spd(T, Dy, cmax) if r.coin(0.5) else None,
         "Qs": r.spd(T, Dz, cmax) if r.coin(0.35) else None,
+        "prior_ctor": r.choice(["sigma", "sigma_lambda", "all"]),
     }
 
 
@@ -240,11 +242,17 @@ def _cond(cls, Mm, b, Sg, m=None):
     return k(**kw)
 
 
-def _prior(cls, m0, S0):
+def _prior(cls, m0, S0, ctor="sigma"):
+    """The prior in one of the documented constructor argument combinations."""
     L = lib()
     jnp = L["jnp"]
     k = L["pdf"].GaussianDiagPDF if cls == "GaussianDiagPDF" else L["pdf"].GaussianPDF
-    return k(Sigma=jnp.asarray(A(S0)[None]), mu=jnp.asarray(A(m0)[None]))
+    kw = {"Sigma": jnp.asarray(A(S0)[None]), "mu": jnp.asarray(A(m0)[None])}
+    if ctor in ("sigma_lambda", "all"):
+        kw["Lambda"] = jnp.asarray(np.linalg.inv(A(S0))[None])
+    if ctor == "all":
+        kw["ln_det_Sigma"] = jnp.asarray(np.linalg.slogdet(A(S0))[1][None])
+    return k(**kw)
 
 
 def _apply_faults(w, post, faults, t, stats, kind="pdf"):
@@ -300,7 +308,7 @@ def run_bayes(m, sch, w):
     L = lib()
     jnp = L["jnp"]
     N, Dy, Dw = A(m["M"]).shape
-    prior = _prior(m["prior_cls"], m["m0"], m["S0"])
+    prior = _prior(m["prior_cls"], m["m0"], m["S0"], m.get("prior_ctor", "sigma"))
     cond = _cond(m["cond_cls"], m["M"], m["b"], m["Sigma"], m)
     y = A(m["y"])
     if sch.get("one_shot") and sch.get("style") == "incremental":
@@ -351,7 +359,7 @@ def run_kalman(m, sch, w):
     else:
         trans = C.ConditionalGaussianPDF(M=jnp.asarray(A(m["A"])[None]), b=jnp.asarray(A(m["b"])[None]), Sigma=jnp.asarray(A(m["Q"])[None]))
     emis = C.ConditionalGaussianPDF(M=jnp.asarray(A(m["C"])[None]), b=jnp.asarray(A(m["d"])[None]), Sigma=jnp.asarray(A(m["R"])[None]))
-    filt = _prior("GaussianPDF", m["m0"], m["P0"])
+    filt = _prior("GaussianPDF", m["m0"], m["P0"], m.get("prior_ctor", "sigma"))
     ev = 0.0
     out = []
     ys = A(m["ys"])
